@@ -108,6 +108,7 @@ type view struct {
 	cancelled bool
 	tickets   []*ticket
 	acked     []int64 // epoch ids of acknowledged writes
+	ackedAt   []int   // position in the event log when each was acknowledged
 	popSeq    map[int][]int // per block id: log positions of its pops not yet matched by a hand-back
 }
 
@@ -221,6 +222,7 @@ func (s *sut) apply(v *view, op string) (line, reply string, ok bool) {
 			return fmt.Sprintf("fin %d 0", t.abs), errTag(err), true
 		}
 		v.acked = append(v.acked, int64(epoch))
+		v.ackedAt = append(v.ackedAt, s.logLen())
 		return fmt.Sprintf("fin %d %d", t.abs, off+t.size), fmt.Sprintf("ok %d", epoch), true
 	case "tick":
 		if n(1) <= 0 {
